@@ -586,6 +586,29 @@ func persistedFirst(fn *ssa.Function, s *ssa.Store) bool {
 			if strip(a) == strip(s.Val) {
 				carries = true
 			}
+			// ... or the call is given a local copy into whose same field the value was put
+			v := strip(a)
+			if mi, ok := v.(*ssa.MakeInterface); ok {
+				v = mi.X
+			}
+			if al, ok := v.(*ssa.Alloc); ok {
+				_, want, _ := fieldAddrOf(s.Addr)
+				for _, u := range *al.Referrers() {
+					fa, ok := u.(*ssa.FieldAddr)
+					if !ok {
+						continue
+					}
+					if _, f, _ := fieldAddrOf(fa); f != want || want == "" {
+						continue
+					}
+					for _, w := range *fa.Referrers() {
+						if st2, ok := w.(*ssa.Store); ok && st2.Addr == ssa.Value(fa) && strip(st2.Val) == strip(s.Val) &&
+							(st2.Block() == call.Block() || st2.Block().Dominates(call.Block())) {
+							carries = true
+						}
+					}
+				}
+			}
 		}
 		if !carries {
 			continue
